@@ -120,7 +120,22 @@ start :: fn do
     pr(name)
 end
 ''',
+"qualified_type_paths": '''
+use shapes
+use shapes as sh
+get :: fn v: shapes.point.Point -> int do
+    ret v.x
+end
+start :: fn do
+    p: shapes.point.Point = shapes.point.mk(1)
+    q: sh.point.Point = p
+    l: [shapes.point.Point] = [p, q]
+    pr(get(q))
+    pr(l)
+end
+''',
 }
+FILES = {"qualified_type_paths": {"shapes.sy": "use point\n", "point.sy": "Point :: blob {\n    x: int,\n}\nmk :: fn n: int -> Point do\n    ret Point { x: n }\nend\n"}}
 _CTX = {}
 
 
@@ -131,7 +146,7 @@ def work(job):
         k = _CTX.get("k")
         if k is None: k = _CTX["k"] = ktc.Kernel()
         t0 = time.time()
-        r = k.explore(text, with_ir=True, optional_annotations=True)
+        r = k.explore(text, with_ir=True, optional_annotations=True, files=FILES.get(name))
         if "error" in r: return {"name": name, "status": "template_error", "why": r["error"]}
         S = r["sels"]; irs = {}; bad = []
         for pc, (kind, out) in r["paths"]:
@@ -168,8 +183,8 @@ def run(tier):
     nat = 0
     for name, text in jobs:
         plain = unannotated(text)
-        a = common.compile_sy(art["sylt"], {"main.sy": "pr: fn *X -> void : external\n" + text}, extra=["--no-std"])
-        b = common.compile_sy(art["sylt"], {"main.sy": "pr: fn *X -> void : external\n" + plain}, extra=["--no-std"]); nat += 1
+        a = common.compile_sy(art["sylt"], dict(FILES.get(name, {}), **{"main.sy": "pr: fn *X -> void : external\n" + text}), extra=["--no-std"])
+        b = common.compile_sy(art["sylt"], dict(FILES.get(name, {}), **{"main.sy": "pr: fn *X -> void : external\n" + plain}), extra=["--no-std"]); nat += 1
         if (a[0] == 0) != (b[0] == 0): fnd.report("annotation-changes-acceptance:" + name, "native: annotated exit %d, unannotated exit %d (%s)" % (a[0], b[0], (a[2] + b[2])[-200:].replace("\n", " ")), {"annotated.sy": text, "unannotated.sy": plain})
         elif a[0] == 0 and a[1] != b[1]: fnd.report("annotation-changes-code:" + name, "native: the emitted Lua differs between the annotated and the unannotated spelling", {"annotated.sy": text, "unannotated.sy": plain})
     cov = {"states": max(1, tot["paths"]), "transitions": max(1, tot["queries"]), "traces_validated_against_impl": nat, "samples": samples or [{"note": "none"}], "templates": len(jobs), "mir_statements": tot["steps"],
